@@ -1,0 +1,63 @@
+//go:build verif
+// +build verif
+
+/*
+Copyright SecureKey Technologies Inc. All Rights Reserved.
+
+SPDX-License-Identifier: Apache-2.0
+*/
+
+// Package verifhooks re-exports internal functions for an external verification harness.
+// It is only built with the 'verif' build tag.
+package verifhooks
+
+import (
+	internaljws "github.com/trustbloc/sidetree-core-go/pkg/internal/jws"
+	"github.com/trustbloc/sidetree-core-go/pkg/internal/signutil"
+	"github.com/trustbloc/sidetree-core-go/pkg/jws"
+)
+
+// VerifyJWS is internal/jws.VerifyJWS; it returns the protected headers and payload on success.
+func VerifyJWS(compact string, jwk *jws.JWK) (jws.Headers, []byte, error) {
+	s, err := internaljws.VerifyJWS(compact, jwk)
+	if err != nil {
+		return nil, nil, err
+	}
+
+	return s.ProtectedHeaders, s.Payload, nil
+}
+
+// ParseJWS is internal/jws.ParseJWS; it returns protected headers, payload and signature.
+func ParseJWS(compact string) (jws.Headers, []byte, []byte, error) {
+	s, err := internaljws.ParseJWS(compact)
+	if err != nil {
+		return nil, nil, nil, err
+	}
+
+	return s.ProtectedHeaders, s.Payload, s.Signature(), nil
+}
+
+// VerifySignature is internal/jws.VerifySignature.
+func VerifySignature(jwk *jws.JWK, signature, msg []byte) error {
+	return internaljws.VerifySignature(jwk, signature, msg)
+}
+
+// Signer is the signer interface of internal/signutil.
+type Signer = signutil.Signer
+
+// SignModel is internal/signutil.SignModel.
+func SignModel(model interface{}, signer Signer) (string, error) {
+	return signutil.SignModel(model, signer)
+}
+
+// SignPayload is internal/signutil.SignPayload.
+func SignPayload(payload []byte, signer Signer) (string, error) {
+	return signutil.SignPayload(payload, signer)
+}
+
+// ParseInternalJWK decodes a JWK with internal/jws.JWK.UnmarshalJSON and reports the error.
+func ParseInternalJWK(jwkJSON []byte) error {
+	var k internaljws.JWK
+
+	return k.UnmarshalJSON(jwkJSON)
+}
